@@ -154,6 +154,12 @@ def load_or_fail(ex, cid, D, **kw):
 def dataset_stream(ex, n, exhaustive):
     """random datasets, preceded (thorough tier of C02/C03) by this shard's slice of the bounded-exhaustive space:
     every recoverable single-family history with <= 2 two-copy duplications on every tree shape with <= 5 leaves"""
+    # corpus first: the repository's own fixtures (correspondence only; some are outside the consistent domain)
+    if os.environ.get('VERIF_SHARD', '0/1').startswith('0/'):
+        import corpus
+        for D in corpus.fixtures(ob.REPO):
+            ex.res.count('corpus_fixtures')
+            yield D
     if exhaustive:
         k, shards = [int(x) for x in os.environ.get('VERIF_SHARD', '0/1').split('/')]
         for i, D in enumerate(gen.exhaustive_datasets(5, 2, naming='own')):
@@ -172,6 +178,15 @@ def explore_load(prop, tier, seed, oracle, tags, n_quick, emit=(), with_truth=Fa
     for k, D in enumerate(dataset_stream(ex, n, tier == 'thorough' and prop in ('C02', 'C03'))):
         cid = '%s-%d' % (prop, k)
         ex.note_dataset(D)
+        if D.meta.get('corpus'):
+            try:
+                h = pyham.Ham(hog_file=D.meta['hog_file'], **D.meta['tree_kw'])
+                o = ob.Obs(); o.put('load', 'ok'); ob.observe_load(h, o)
+            except Exception as e:      # noqa
+                ex.fail(cid, D, ['repository fixture %s: %s: %s' % (D.meta['corpus'], type(e).__name__, e)])
+                continue
+            ex.submit(cid, D, o.tags, [t for t in tags if t != 'agname' or True], emit=emit, extra=o, hist=False)
+            continue
         h = load_or_fail(ex, cid, D)
         if h is None:
             continue
@@ -190,6 +205,8 @@ def explore_load(prop, tier, seed, oracle, tags, n_quick, emit=(), with_truth=Fa
         out = []
         # echo of the theorems' hypotheses / conclusions, evaluated by the model on this case:
         # WF (C02) + registration exact + genome sizes exact (C04), and "the family realises its history" (C03)
+        if D.meta.get('corpus'):
+            return out
         if L.get('wf') not in (None, ['111']):
             out.append(('model-wf-regExact-sizesExact', [], L.get('wf')))
         if with_truth and any(x != '1' for x in L.get('real', [])) and not D.meta.get('nested_only_raw'):
